@@ -292,6 +292,39 @@ def run_roundtrip(ctx: Ctx, quick: bool = True) -> None:
                 return True, ""
             _guard(ctx, "T18.channel-less", f"{ext}:D={D}", fW, f"format={ext} D={D} data without channel axis", thc)
 
+    # tensors that are views with another memory layout (permuted / transposed, not contiguous): the file holds the logical voxel order
+    ctx.rule("T18.strided", "write_image of an image whose tensor is a reversed-axes (Fortran-ordered) view of its storage — what permute / "
+                            ".T / from_numpy(a.T) produce — stores the voxels in their logical order: reading back, and the reference reader, "
+                            "give the same values as for the packed copy of that tensor (numpy's tobytes / astype layout rules are part of "
+                            "the numpy specification model)")
+    for ext in (".mha", ".nii.gz", ".nrrd"):
+        for D, C in ((2, 1), (3, 1), (3, 2)):
+            if ext.startswith(".nii") and (D == 2 or C > 1):
+                continue  # recorded findings (2-D / multi-channel NIfTI)
+
+            def thv(ext=ext, D=D, C=C):
+                env = IOEnv(ctx)
+                it = env.it
+                g, geo = env.grid(D)
+                data = env.data(D, C, "float32")
+                rev = list(reversed(range(data.ndim)))
+                packed_rev = data.permute(rev)
+                packed_rev = STensor(list(packed_rev.flat()), list(range(packed_rev.numel())), list(packed_rev.shape), packed_rev.dtype)
+                view = packed_rev.permute(rev)  # same logical values as data, Fortran memory order
+                if view.is_contiguous() or not teq(view, data):
+                    raise AnalysisError("T18.strided: adaptor did not build a non-contiguous view with the same values")
+                path = f"/vfs/strided{ext}"
+                it.call(fW, view, g, path, compress=False)
+                d2, g2 = it.call(fR, path)
+                ok, msg = same_data(d2, data)
+                if not ok:
+                    return False, "a non-contiguous (reversed-axes) tensor is not written in its logical voxel order: " + msg
+                ok, msg = sitk_expect(env, IO.sitk_read(path), data, geo, "reference reader")
+                if not ok:
+                    return False, msg
+                return True, ""
+            _guard(ctx, "T18.strided", f"{ext}:D={D}:C={C}", fW, f"format={ext} D={D} channels={C} reversed-axes view", thv)
+
     # every SimpleITK pixel type the conversion handles: the tensor type it is widened to holds every value
     ctx.rule("T18.sitk-types", "tensor_from_image / Image.from_sitk of a SimpleITK image of pixel type uint8, int8, uint16, int16, uint32, int32, "
                                "int64, float32, float64 (symbolic voxels ranging over the whole type): the tensor holds exactly the voxel "
